@@ -20,6 +20,7 @@ type CaseC12 struct {
 	// time round trip: an instant as unix seconds + nanoseconds
 	Sec  int64 `json:"t_sec"`
 	Nsec int64 `json:"t_nsec"`
+	Zone int   `json:"t_zone_offset_s,omitempty"` // the instant is handed over as a time.Time in a fixed zone with this UTC offset (0 = UTC)
 }
 
 const (
@@ -83,6 +84,12 @@ func genC12(t *rapid.T) CaseC12 {
 		c.Nsec = 1953125 * rapid.Int64Range(0, 511).Draw(t, "ns-512th")
 	default:
 		c.Nsec = rapid.Int64Range(0, 999999999).Draw(t, "ns")
+	}
+	switch rapid.IntRange(0, 3).Draw(t, "zone-kind") {
+	case 0:
+		c.Zone = rapid.SampledFrom([]int{-12 * 3600, 14 * 3600, 19800, -12600, 3600, -18000, 1, -1}).Draw(t, "zone-b")
+	case 1:
+		c.Zone = rapid.IntRange(-18*3600, 18*3600).Draw(t, "zone")
 	}
 	return c
 }
@@ -309,15 +316,17 @@ func checkC12(c CaseC12, x *hx.Ctx) *hx.Failure {
 			f.Key = "rebuild-" + f.Key
 			return f
 		}
-		if want := e2.Bytes(); e.FormatID == 0x45425030 && !bytes.Equal(data2, want) && false {
-			return hx.Failf("rebuild-bytes", "re-encoded %x want %x", data2, want)
-		}
 	}
 	// (4) time round trip
 	if c.Sec < c12MinUnix || c.Sec >= c12MaxUnix || c.Nsec < 0 || c.Nsec > 999999999 {
 		return hx.Failf("bad-case", "instant outside the representable range")
 	}
 	t := time.Unix(c.Sec, c.Nsec).UTC()
+	if c.Zone != 0 {
+		// the same instant on another wall clock
+		t = t.In(time.FixedZone("harness", c.Zone))
+		x.Label("instant-in-non-UTC-zone")
+	}
 	for _, cl := range []bool{false, true} {
 		var b ebp.EncoderBoundaryPoint
 		if cl {
@@ -349,7 +358,7 @@ func checkC12(c CaseC12, x *hx.Ctx) *hx.Failure {
 var propC12 = hx.Register(hx.Prop[CaseC12]{ID: "C12", Gen: genC12, Check: checkC12})
 
 func c12Rule() {
-	hx.Rec("C12").SetRule("cases: a reference-model EBP of either flavour (any flags byte, extension flags, SAP byte, Comcast one grouping byte / CableLabs chain of 1..6 seven-bit ids biased to 0x1C/0x1D, NTP seconds and fraction from boundary sets, partition byte, 0..20 reserved trailing bytes or as many as make data_field_length 128..255, format identifier EBP0 or arbitrary) and an instant in [1968-01-20T03:14:08Z, 2104-02-26T09:42:24Z) biased to second edges (x.000000000, x.999999999, x.999999998), multiples of 1/512 s and the two era edges. Oracle: getters = model, EBPTime = era + seconds + floor(fraction*10^9/2^32) ns by exact integer arithmetic, StreamSyncSignal = first id in {0x1C,0x1D} else 0xFF, Data() of the decoded object = input bytes; the same model realised through Create*/setters/exported fields encodes to bytes that decode to the same getters with length byte = bytes that follow; |EBPTime(SetEBPTime(t)) - t| <= 1 ns directly and through the wire. Enumerated: all 256 flag bytes x both flavours x {no ext partition, partition} with minimal bodies. Non-trivial: >= 3 flags set, or a chain >= 3, or reserved bytes, or an instant within 2 ns of a second edge.",
+	hx.Rec("C12").SetRule("cases: a reference-model EBP of either flavour (any flags byte, extension flags, SAP byte, Comcast one grouping byte / CableLabs chain of 1..6 seven-bit ids biased to 0x1C/0x1D, NTP seconds and fraction from boundary sets, partition byte, 0..20 reserved trailing bytes or as many as make data_field_length 128..255, format identifier EBP0 or arbitrary) and an instant in [1968-01-20T03:14:08Z, 2104-02-26T09:42:24Z) biased to second edges (x.000000000, x.999999999, x.999999998), multiples of 1/512 s and the two era edges, handed over as a time.Time in UTC or (half of the cases) in a fixed zone with an offset up to +-18 h. Oracle: getters = model, EBPTime = era + seconds + floor(fraction*10^9/2^32) ns by exact integer arithmetic, StreamSyncSignal = first id in {0x1C,0x1D} else 0xFF, Data() of the decoded object = input bytes; the same model realised through Create*/setters/exported fields encodes to bytes that decode to the same getters with length byte = bytes that follow; |EBPTime(SetEBPTime(t)) - t| <= 1 ns directly and through the wire. Enumerated: all 256 flag bytes x both flavours x {no ext partition, partition} with minimal bodies. Non-trivial: >= 3 flags set, or a chain >= 3, or reserved bytes, or an instant within 2 ns of a second edge.",
 		"data_field_length up to 255 (beyond the 183 bytes that fit transport private data: the decoder API takes any byte string); non-empty EBPs only",
 		"Set*Flag(false) is a no-op by design: the builder path only sets flags",
 		"EBPSuccessReadTime (wall clock) is never compared")
